@@ -66,6 +66,9 @@ func NumericCase(r *prng.R, id string) *sexp.S {
 		places := r.Intn(9)
 		node.Body = append(node.Body, &ast.Stmt{Kind: "call", Fn: "probe", Args: []*ast.Expr{ast.Fn("round_places", v, ast.Num(strconv.Itoa(places)))}})
 		expect.Add(sexp.L(sexp.A("round_places"), bits, sexp.N(places)))
+		// the number of places computed by a call of its own (a call nested in the second argument of another call)
+		node.Body = append(node.Body, &ast.Stmt{Kind: "call", Fn: "probe", Args: []*ast.Expr{ast.Fn("round_places", v, ast.Fn(r.Pick("integer", "floor", "number"), ast.Num(strconv.Itoa(places))))}})
+		expect.Add(sexp.L(sexp.A("round_places"), bits, sexp.N(places)))
 		node.Body = append(node.Body, &ast.Stmt{Kind: "call", Fn: "probe", Args: []*ast.Expr{ast.Fn("string", v)}})
 		expect.Add(sexp.L(sexp.A("string"), bits))
 		node.Body = append(node.Body, &ast.Stmt{Kind: "call", Fn: "probe", Args: []*ast.Expr{ast.Fn("number", ast.Fn("string", v))}})
@@ -87,6 +90,10 @@ func NumericCase(r *prng.R, id string) *sexp.S {
 	for _, e := range []*ast.Expr{
 		ast.Fn("bool", ast.Fn("string", ast.Var("b"))), ast.Fn("string", ast.Var("b")), ast.Fn("bool", ast.Var("b")), ast.Fn("number", ast.Var("b")),
 		ast.Fn("string", ast.Var("s")), ast.Fn("number", ast.Var("s")), ast.Fn("bool", ast.Var("s")),
+		// two results of one built-in alive in one expression
+		ast.Bin("add", ast.Fn("floor", ast.Var("x0")), ast.Fn("floor", ast.Bin("mul", ast.Var("x0"), ast.Num("2")))),
+		ast.Bin("eq", ast.Fn("string", ast.Var("x0")), ast.Fn("string", ast.Neg(ast.Var("x0")))),
+		ast.Fn("two", ast.Fn("inc", ast.Var("x0")), ast.Fn("inc", ast.Fn("inc", ast.Var("x0")))),
 	} {
 		node.Body = append(node.Body, &ast.Stmt{Kind: "call", Fn: "probe", Args: []*ast.Expr{e}})
 	}
